@@ -4,7 +4,7 @@
    The theorems are about the specification spec_a64 / spec_row derived from the ISA database; that the words of a64::Assembler are
    the words of this specification is checked per run on generated operands (tools/checks/c02.py), not proved. *)
 From Coq Require Import ZArith List Bool.
-From Verif Require Import A64.A64Tmpl A64.A64TmplProofs A64.A64Sem A64.A64SemProofs A64.A64InvProofs A64.A64RefusalProofs Codec.ImmModel.
+From Verif Require Import A64.A64Tmpl A64.A64TmplProofs A64.A64Sem A64.A64SemProofs A64.A64InvProofs A64.A64RefusalProofs A64.A64InstProofs A64.A64CanonProofs A64.A64FpProofs A64.A64TmplComplete A64.A64BijProofs Codec.ImmModel.
 From VerifGen Require Import IsaA64Db.
 Import ListNotations.
 Local Open Scope Z_scope.
@@ -103,6 +103,147 @@ Proof. exact (spec_a64_from_row rows alt_table). Qed.
 Print Assumptions C02_spec_a64_is_a_row.
 
 
+(* Instruction-level refusal is exact (round 6): for a mnemonic and ANY operand list the specification answers None exactly when the
+   operands are invalid (ops_valid, the declarative ranges of C02_refusal_exact) for EVERY database row of the mnemonic and of its fall-back
+   mnemonic (LDR -> LDUR ...). So a refusal of the specification is never an artefact of the row search, and an acceptance needs just one row. *)
+Theorem C02_inst_refusal_exact : forall mn ops, spec_a64_rows rows alt_table mn ops = None <->
+  (forall r, In r rows -> (r_mn r = mn \/ exists k, find (fun p => fst p =? mn) alt_table = Some (k, r_mn r)) -> ~ ops_valid (r_ops r) ops).
+Proof.
+  intros mn ops. rewrite spec_a64_rows_none. split.
+  - intros [H1 H2] r Hin [Hm | [k Hk]].
+    + apply (proj2 (C02_refusal_exact r ops Hin)). exact (H1 r Hin Hm).
+    + apply (proj2 (C02_refusal_exact r ops Hin)). apply (H2 (r_mn r)); [right; exists k; exact Hk | exact Hin | reflexivity].
+  - intros H. split.
+    + intros r Hin Hm. apply (proj2 (C02_refusal_exact r ops Hin)). apply H; [exact Hin | left; exact Hm].
+    + intros mn' Hf r Hin Hm. apply (proj2 (C02_refusal_exact r ops Hin)). apply H; [exact Hin|]. right.
+      destruct Hf as [Hf | [k Hf]]; [exists mn | exists k]; rewrite Hm; exact Hf.
+Qed.
+Print Assumptions C02_inst_refusal_exact.
+
+(* The row search is deterministic and ordered: the answer for a mnemonic is its FIRST accepting row in database order - every earlier row
+   of the mnemonic refuses the operands (this is what makes the shifted-register form win over the extended-register form, and the scaled
+   LDR over LDUR). *)
+Theorem C02_inst_first_row : forall mn ops id w, spec_rows rows mn ops = Some (id, w) ->
+  exists pre r post, rows = pre ++ r :: post /\ r_id r = id /\ r_mn r = mn /\ spec_row r ops = Some w /\
+                     (forall r', In r' pre -> r_mn r' = mn -> ~ ops_valid (r_ops r') ops).
+Proof.
+  intros mn ops id w H. destruct (spec_rows_first rows mn ops id w H) as (pre & r & post & Hd & A & B & C & D).
+  exists pre, r, post. repeat split; auto. intros r' Hi Hm.
+  assert (Hin : In r' rows) by (rewrite Hd; apply in_or_app; left; exact Hi).
+  apply (proj2 (C02_refusal_exact r' ops Hin)). exact (D r' Hi Hm).
+Qed.
+Print Assumptions C02_inst_first_row.
+
+(* Decoding is a right inverse of encoding on the image (round 6, all rows, all operands): the canonical operands read back from an emitted
+   word are themselves accepted by the row and encode to the SAME word, and they are valid operands in the declarative sense. Together with
+   C02_operands_recovered (decode after encode = canonical form) this makes spec_row / decode_row a bijection between the canonical valid
+   operand lists of a row and the words the row can produce; canonicalisation (explicit LSL #0, explicit extend kind, imm12 with lsl #12,
+   bitmask value modulo the register width, zero write-back normal form, double bits of an FP immediate, ...) never changes the encoding. *)
+Theorem C02_canonical_reencodes : forall r ops w, In r rows -> spec_row r ops = Some w ->
+  spec_row r (decode_row r w) = Some w /\ ops_valid (r_ops r) (decode_row r w).
+Proof.
+  intros r ops w Hin H.
+  pose proof (C02_operands_recovered r ops w Hin H) as Hc.
+  assert (Hok : canon_row_ok (r_ops r) = true) by exact (proj1 (forallb_forall _ rows) rows_canon_ok r Hin).
+  assert (S : spec_row r (decode_row r w) = Some w).
+  { unfold spec_row in *. destruct (bind (r_ops r) ops) as [e|] eqn:B; [|discriminate]. inversion H; subst.
+    rewrite (canon_bind_same _ _ _ _ Hok B Hc). reflexivity. }
+  split; [exact S|].
+  apply (proj1 (proj1 (C02_refusal_exact r (decode_row r w) Hin))). exists w. exact S.
+Qed.
+Print Assumptions C02_canonical_reencodes.
+(* canonical operands are a fixed point of decode-after-encode *)
+Corollary C02_decode_idempotent : forall r ops w, In r rows -> spec_row r ops = Some w ->
+  canon (r_ops r) (decode_row r w) = Some (decode_row r w).
+Proof.
+  intros r ops w Hin H. destruct (C02_canonical_reencodes r ops w Hin H) as [S _].
+  exact (C02_operands_recovered r (decode_row r w) w Hin S).
+Qed.
+Print Assumptions C02_decode_idempotent.
+
+(* Injectivity on operands (corollary of C02_operands_recovered, stated explicitly): two operand lists that a row encodes to the same
+   word have the same canonical form - no two different canonical operand lists collide. *)
+Corollary C02_row_injective : forall r ops1 ops2 w, In r rows -> spec_row r ops1 = Some w -> spec_row r ops2 = Some w ->
+  canon (r_ops r) ops1 = canon (r_ops r) ops2.
+Proof.
+  intros r ops1 ops2 w Hin H1 H2.
+  rewrite (C02_operands_recovered r ops1 w Hin H1), (C02_operands_recovered r ops2 w Hin H2). reflexivity.
+Qed.
+Print Assumptions C02_row_injective.
+
+(* Frame condition (what must NOT change): if two accepted operand lists of a row bind the same value to a field, that field reads back
+   identically from both words - changing one operand changes only the bits of the fields it binds; and the fixed bits never change
+   (C02_fixed_bits_mask). *)
+Corollary C02_field_frame : forall r ops1 ops2 w1 w2 e1 e2 f v, In r rows ->
+  bind (r_ops r) ops1 = Some e1 -> bind (r_ops r) ops2 = Some e2 -> w1 = tenc (r_tmpl r) e1 -> w2 = tenc (r_tmpl r) e2 ->
+  In (f, v) e1 -> In (f, v) e2 ->
+  tfield (r_tmpl r) w1 f = tfield (r_tmpl r) w2 f /\
+  Z.land w1 (tmask (r_tmpl r)) = Z.land w2 (tmask (r_tmpl r)).
+Proof.
+  intros r ops1 ops2 w1 w2 e1 e2 f v Hin B1 B2 -> -> I1 I2.
+  assert (S1 : spec_row r ops1 = Some (tenc (r_tmpl r) e1)) by (unfold spec_row; rewrite B1; reflexivity).
+  assert (S2 : spec_row r ops2 = Some (tenc (r_tmpl r) e2)) by (unfold spec_row; rewrite B2; reflexivity).
+  destruct (C02_fields_recovered r ops1 _ Hin S1) as (_ & _ & e1' & B1' & _ & F1).
+  destruct (C02_fields_recovered r ops2 _ Hin S2) as (_ & _ & e2' & B2' & _ & F2).
+  rewrite B1 in B1'. inversion B1'; subst e1'. rewrite B2 in B2'. inversion B2'; subst e2'.
+  split; [rewrite (F1 f v I1), (F2 f v I2); reflexivity|].
+  rewrite !(C02_fixed_bits_mask r _ Hin). reflexivity.
+Qed.
+Print Assumptions C02_field_frame.
+
+(* FMOV immediates: the declarative validity WITHOUT the two guards that bind1/valid1 carry only to avoid range lemmas (they are discharged
+   in A64FpProofs: the imm8 encoding is always an 8-bit value; the double converted from an int32 is always a 64-bit pattern): an Imm is a
+   valid FMOV immediate iff it is a double (64-bit pattern) or an int32, and the value is one of the 256 imm8 numbers. *)
+Theorem C02_fp_imm_valid : forall fa fd p v r,
+  valid1 (SFpImm fa fd) (OImm p v :: r) <->
+  ((256 <= p /\ 0 <= v < 2 ^ 64) \/ (p < 256 /\ - 2 ^ 31 <= v < 2 ^ 31)) /\ is_fp_imm8 9 6 48 (fimm_bits p v) = true.
+Proof. exact fp_imm_valid_clean. Qed.
+Print Assumptions C02_fp_imm_valid.
+Example ex_fp_imm_valid : is_fp_imm8 9 6 48 (fimm_bits 256 4607182418800017408) = true   (* 1.0 *)
+  /\ is_fp_imm8 9 6 48 (fimm_bits 0 31) = true /\ is_fp_imm8 9 6 48 (fimm_bits 0 32) = false   (* the integers 31 and 32 *)
+  /\ is_fp_imm8 9 6 48 (fimm_bits 256 4591870180066957722) = false.   (* 0.1 *)
+Proof. vm_compute. repeat split; reflexivity. Qed.
+
+(* Completeness of the template codec (round 6; the converse of C02_tmpl_roundtrip): for every row whose template writes each field as one
+   whole slice (simple_rows_count = 3115 of the 3306 rows; the others split a field such as relS or idx into slices), EVERY 32-bit word that
+   carries the fixed bits of the row is the encoding of the field values read from it - tenc is onto the matching words, so
+   "matches the template" and "is tenc of some field environment" are the same thing, and the field environment is the one tfield reads. *)
+Theorem C02_tmpl_complete_simple : forall r w, In r rows -> tsimple (r_tmpl r) = true -> tmatch (r_tmpl r) w = true ->
+  tenc (r_tmpl r) (env_of (r_tmpl r) w) = w.
+Proof.
+  intros r w Hin Hs Hm.
+  pose proof (proj1 (forallb_forall row_wf rows) rows_wf r Hin) as H. unfold row_wf in H.
+  assert (T : twf (r_tmpl r) = true).
+  { destruct (row_tmpl_wf (r_tmpl r) (r_fields r)) eqn:E; [|rewrite ?andb_false_l in H; cbn in H; discriminate H].
+    unfold row_tmpl_wf in E. apply andb_prop in E. destruct E as [E _]. apply andb_prop in E. destruct E as [E _]. exact E. }
+  unfold twf in T. apply andb_prop in T. destruct T as [Hwf H32].
+  apply Z.eqb_eq in H32. apply tmpl_complete_simple; assumption.
+Qed.
+Print Assumptions C02_tmpl_complete_simple.
+
+(* The image of a row characterised (round 6): for every row whose operand syntaxes are bijective between in-range field values and valid
+   operands (syn_bij: registers, plain/scaled/signed/bounded immediates, conditions, displacements, offsets, vector views and lanes, system
+   registers and operations; bij_rows_count rows - not the forms with several encodings of one operand: bitmask immediates, optional shifts,
+   zero write-back, bitfield aliases, byte register offsets, one register in two fields) and whose template is simple, a 32-bit word is produced by the row for SOME operands exactly
+   when it carries the row's fixed bits and the operands decoded from it are valid - and then those decoded operands produce it.
+   So for these rows the specification is a bijection between valid canonical operand lists and the matching words with valid decodes:
+   no matching word is missed by the encoder, none is produced twice. *)
+Theorem C02_image_characterised : forall r w, In r rows -> forallb syn_bij (r_ops r) = true -> tsimple (r_tmpl r) = true ->
+  ((exists ops, spec_row r ops = Some w) <-> (tmatch (r_tmpl r) w = true /\ ops_valid (r_ops r) (decode_row r w))) /\
+  (tmatch (r_tmpl r) w = true -> ops_valid (r_ops r) (decode_row r w) -> spec_row r (decode_row r w) = Some w).
+Proof.
+  intros r w Hin Hb Hs.
+  assert (Hwf : row_wf r = true) by exact (proj1 (forallb_forall row_wf rows) rows_wf r Hin).
+  pose proof (proj1 (forallb_forall row_inv rows) rows_all_inv r Hin) as Hri. unfold row_inv in Hri. apply andb_prop in Hri. destruct Hri as [_ Hhi].
+  assert (D : tmatch (r_tmpl r) w = true -> ops_valid (r_ops r) (decode_row r w) -> spec_row r (decode_row r w) = Some w)
+    by (intros Hm Hv; apply row_decode_encode; try assumption; exact (proj1 (forallb_forall _ rows) rows_canon_ok r Hin)).
+  split; [|exact D]. split.
+  - intros [ops H]. destruct (C02_fields_recovered r ops w Hin H) as (_ & Hm & _).
+    destruct (C02_canonical_reencodes r ops w Hin H) as [_ Hv]. split; assumption.
+  - intros [Hm Hv]. exists (decode_row r w). apply D; assumption.
+Qed.
+Print Assumptions C02_image_characterised.
+
 (* ---- non-vacuity on a hand-written row (ADD Xd, Xn, Xm with a zero shift): the hypotheses of the theorems above are satisfiable and the
    conclusions say something: the row is well formed, accepts x1, x2, x3 with the architectural word 8B030041, the operands are read back
    from that word, and SP (id 31) in a ZR position is refused. The generated coq/gen/IsaA64Db.v carries instruction-level Examples over
@@ -124,3 +265,15 @@ Proof.
 Qed.
 Example ex_fixed_bits : Z.land 2332229697 (tmask (r_tmpl ex_row)) = tfixed (r_tmpl ex_row) /\ tmask (r_tmpl ex_row) = 4292934656.
 Proof. vm_compute. split; reflexivity. Qed.
+Example ex_row_reencodes : spec_row ex_row (decode_row ex_row 2332229697) = Some 2332229697 /\ canon_row_ok (r_ops ex_row) = true.
+Proof. vm_compute. split; reflexivity. Qed.
+Example ex_row_frame : tfield (r_tmpl ex_row) 2332229697 1 = 2 /\ tfield (r_tmpl ex_row) 2332229697 2 = 3
+  /\ spec_row ex_row [OGp true 9; OGp true 2; OGp true 3] = Some 2332229705 /\ tfield (r_tmpl ex_row) 2332229705 1 = 2.
+Proof. vm_compute. repeat split; reflexivity. Qed.
+Example ex_row_complete : tsimple (r_tmpl ex_row) = true /\ tmatch (r_tmpl ex_row) 2332295362 = true
+  /\ tenc (r_tmpl ex_row) (env_of (r_tmpl ex_row) 2332295362) = 2332295362.   (* an arbitrary word with ADD's fixed bits: 8B040082 *)
+Proof. vm_compute. repeat split; reflexivity. Qed.
+Example ex_row_image : forallb syn_bij (r_ops ex_row) = true /\ decode_row ex_row 2332295362 = [OGp true 2; OGp true 6; OGp true 4]
+  /\ spec_row ex_row (decode_row ex_row 2332295362) = Some 2332295362
+  /\ spec_row ex_row (decode_row ex_row 2332229697) = Some 2332229697.
+Proof. vm_compute. repeat split; reflexivity. Qed.
